@@ -80,6 +80,72 @@ def top_repo_frame(exc):
     return where
 
 
+class LazyArgs:
+    """Mapping handed to a harness under symbolic execution: a parameter becomes a symbolic
+    value only when the harness first reads it (every symbolic value costs solver work on every
+    path, so parameters a path never looks at are never created).  Shard values are concrete."""
+
+    def __init__(self, types, shard):
+        self._types = types
+        self._vals = dict(shard)
+        self.created = []
+
+    def __getitem__(self, name):
+        try:
+            return self._vals[name]
+        except KeyError:
+            pass
+        from crosshair.core import proxy_for_type
+        typ = self._types[name]
+        v = proxy_for_type(typ, name + "_%d" % len(self.created))
+        self._vals[name] = v
+        self.created.append(name)
+        return v
+
+    def get(self, name, default=None):
+        if name in self._vals or name in self._types:
+            return self[name]
+        return default
+
+    def __contains__(self, name):
+        return name in self._vals or name in self._types
+
+    def renamed(self, **names):
+        """a view in which reading ``new`` reads parameter ``names[new]`` (still lazily)"""
+        return _Renamed(self, names)
+
+
+class _Renamed:
+    def __init__(self, base, names):
+        self._base = base
+        self._names = names
+
+    def __getitem__(self, name):
+        return self._base[self._names.get(name, name)]
+
+    def get(self, name, default=None):
+        return self._base.get(self._names.get(name, name), default)
+
+
+class ConcreteArgs(dict):
+    """plain-value counterpart of LazyArgs used for replay; unread parameters default to
+    0 / False / '' """
+
+    def __init__(self, types, values):
+        dict.__init__(self)
+        for k, t in types.items():
+            self[k] = {int: 0, bool: False, str: "", float: 0.0, list: []}.get(t, None)
+        self.update(values)
+
+    def renamed(self, **names):
+        return _Renamed(self, names)
+
+
+def spec_types(fn):
+    sig = inspect.signature(fn)
+    return {n: p.annotation for n, p in sig.parameters.items()}
+
+
 class Fail(Exception):
     """Raise inside a harness to report a failure with a label."""
 
@@ -123,7 +189,7 @@ def run_concrete(fn, kwargs, timeout):
     signal.setitimer(signal.ITIMER_REAL, timeout)
     try:
         try:
-            r = fn(**kwargs)
+            r = fn.__wrapped_harness__(ConcreteArgs(spec_types(fn), kwargs))
         finally:
             signal.setitimer(signal.ITIMER_REAL, 0)
     except HangDetected:
@@ -198,9 +264,7 @@ def _explore_shard(h, shard, budget_s, path_timeout, max_fail_keep=40, max_sampl
     ss.solver_is_sat = counting
 
     fn = h.fn
-    sig = inspect.signature(fn)
-    sym_params = [p for n, p in sig.parameters.items() if n not in shard]
-    sym_sig = sig.replace(parameters=sym_params)
+    types = spec_types(fn)
     options = DEFAULT_OPTIONS
     root = RootNode()
     res = dict(harness=h.id, shard=shard, paths=0, ok=0, fail=0, ignored=0, unknown=0,
@@ -222,8 +286,7 @@ def _explore_shard(h, shard, budget_s, path_timeout, max_fail_keep=40, max_sampl
         with condition_parser(options.analysis_kind), Patched(), COMPOSITE_TRACER, NoTracing(), \
                 StateSpaceContext(space):
             try:
-                pre_args = gen_args(sym_sig)
-                args = deepcopyext(pre_args, CopyMode.REGULAR, {})
+                lazy = LazyArgs(types, shard)
                 ret = None
                 hang = False
                 try:
@@ -231,9 +294,7 @@ def _explore_shard(h, shard, budget_s, path_timeout, max_fail_keep=40, max_sampl
                         signal.setitimer(signal.ITIMER_REAL, path_timeout)
                         try:
                             with ResumedTracing():
-                                kw = dict(args.arguments)
-                                kw.update(shard)
-                                ret = fn(**kw)
+                                ret = fn.__wrapped_harness__(lazy)
                         finally:
                             signal.setitimer(signal.ITIMER_REAL, 0)
                 except HangDetected:
@@ -264,7 +325,7 @@ def _explore_shard(h, shard, budget_s, path_timeout, max_fail_keep=40, max_sampl
                 # tree, so one program path is one leaf.
                 with ResumedTracing():
                     space.detach_path()
-                inputs = _plain(deep_realize(dict(pre_args.arguments)))
+                inputs = _plain(deep_realize(dict((k, lazy._vals[k]) for k in lazy.created)))
                 inputs.update(shard)
                 status = VerificationStatus.CONFIRMED
             except IgnoreAttempt:
@@ -328,14 +389,24 @@ def _shard_task(arg):
         res = _explore_shard(h, shard, budget_s, path_timeout)
         # ---- concrete replay of failures (outside CrossHair) and validation of passing paths
         replay_timeout = max(10.0, path_timeout * 5)
+        nhang = 0
         for f in res["fails"]:
+            if f["label"] == "hang":
+                nhang += 1
+                if nhang > 3:
+                    # every further hang candidate of this shard costs a full timeout to
+                    # replay; three reproduced ones are enough to report
+                    f["replay_verdict"] = "skipped"
+                    f["replay_where"] = None
+                    f["replay_detail"] = ""
+                    continue
             v, where, detail = run_concrete(h.fn, f["inputs"], replay_timeout)
             f["replay_verdict"] = v if v is True else str(v)
             f["replay_where"] = where
             f["replay_detail"] = detail[-1200:] if detail else ""
             if h.classify is not None:
                 try:
-                    f["input_class"] = h.classify(f["inputs"])
+                    f["input_class"] = h.classify(ConcreteArgs(spec_types(h.fn), f["inputs"]))
                 except Exception as e:  # noqa
                     f["input_class"] = "classify-error:" + repr(e)
         prof = _Profiler()
@@ -429,5 +500,6 @@ def with_signature(spec):
         params = [inspect.Parameter(n, inspect.Parameter.KEYWORD_ONLY, annotation=t)
                   for n, t in spec]
         fn.__signature__ = inspect.Signature(params)
+        fn.__wrapped_harness__ = fn     # called with one mapping argument (LazyArgs / ConcreteArgs)
         return fn
     return deco
